@@ -6,10 +6,7 @@ from .readerlib import both_modes, dump_dict
 ID = 'C13'
 TARGETS = ['theories/Properties/C13.vo']
 THEOREMS = core.theorems_of(ID)
-LEVEL = ('the generated transpose_one tables (mutable and immutable) and From<mutable> are regenerated on every run; proved: when they are the identity leaf map over the '
-         'reader\'s leaves with Option exactly on gated leaves (kernel-checked closed obligation), the row view at index i is the tuple of the columns at i, version-absent '
-         'fields absent; the hand-written Frame::transpose_one (ports, start >= 2.2, end/items >= 3.0, item slice by offsets) is modelled in Model/View.v and tied to '
-         'Game::frame / ParseState::frame by differential runs; oracle: every view line equals the column dump at that index')
+LEVEL = ("proved (Properties/C13.v): both regenerated transpose_one families are the identity leaf map over the reader's leaves with Option exactly on gated leaves (kernel-checked), so the row view at index i is the tuple of the columns at i; end to end on the hand model of Frame::transpose_one: for every well-formed replay the view of row i is the i-th frame occurrence of the file, in range iff i < rows; model tied to Game::frame / ParseState::frame by differential runs; oracle: every view line equals the column dump")
 
 
 def check_views(lines, prefix_cols, prefix_view, corr, cid, fields, upto):
